@@ -36,6 +36,13 @@ CHECKS = {
         technique="deterministic simulation: simulated cache store with seeded eviction faults over execution histories, differential oracle cache=False",
         design="4/C05",
     ),
+    "C41": dict(
+        category="exploration",
+        text="Seeded search over recording programs with exception injection at every crash point: generated quantum functions nest AnnotatedQueue / QuantumTape / stop_recording contexts, create operators, measurements and wrappers over operands from the same or another context, call qp.apply and function transforms, and an exception is injected at a seeded statement boundary (or raised by PennyLane itself half-way through a constructor) and caught at a seeded outer level. The recording flag and active-context identity are compared with a stack-of-lists model after every statement, every closed context with its model list by object identity, and a probe program recorded afterwards in this and in a second thread must contain exactly its own operations (no residue, no leaked lock).",
+        note="Trusted: the reference model's reading of the documented queuing rules. No thread interleaving (the property does not quantify over schedules). For the one context in which PennyLane itself rejected a constructor half-way, only stack discipline and the probe are checked.",
+        technique="deterministic simulation: exception (crash-point) injection over generated recording programs, reference = stack-of-lists model compared by identity",
+        design="4/C41",
+    ),
 }
 
 NA = {}
